@@ -48,7 +48,7 @@ class CTMCScale(CallableModel):
         return log_like
 
     def _sample_shape(self) -> torch.Size:
-        return self.x.tensor.shape[:-1]
+        return max(self.x.tensor.shape[:-1], self.tree_model.sample_shape, key=len)
 
     def to(self, *args, **kwargs) -> None:
         super().to(*args, **kwargs)
